@@ -133,6 +133,10 @@ class CallsMixin:
                         extra[fvd['name']] = bv
             vals = self.apply_contract(st, fr, ins, con, callee, params, args, [r['type'] for r in results], rn, extra_env=extra)
             self.set_result(st, ins, vals)
+            if con.opts.get('result') == 'readonly' and ins.get('name'):
+                src = callee.split('::')[-1]
+                st.ro[(id(fr), ins['name'])] = src
+                cx.ro_sources.add(src)
             return None
         fnd = self.prog.funcs.get(callee)
         want_inline = (con is not None and con.inline) or (fnd is not None and '$' in callee.split('::')[1] and binds is not None)
@@ -940,10 +944,10 @@ class CallsMixin:
     def rows(self, st, sl):
         """[(leafpath, sort, key or None, region or None, row)] of the backing array of slice sl"""
         types = self.types
-        et = types.elem(sl.t)
         out = []
         if types.kind(sl.t) == 'string':
             return [((), 'I', None, None, sl.lv[('s',)])]
+        et = types.elem(sl.t)
         if sl.arr is not None:
             base = sl.arr
             v = st.load(Loc(base.fam, base.tk, base.ref, base.steps, base.t), facts=False)
